@@ -119,13 +119,19 @@ CHECKS["C10"] = dict(
 )
 CHECKS["C20"] = dict(
     category="model_checking",
-    text="Typing part of History.tla: all call sequences to depth 3 (thorough 4, two slots) over {parse, type with default files, with explicit copies A and B of the bundled "
+    text="(1) Typing part of History.tla: all call sequences to depth 3 (thorough 4, two slots) over {parse, type with default files, with explicit copies A and B of the bundled "
          "files, on a partially generated molecule}. Every typing observation is checked for totality (one parameter set per atom incl. hydrogens, or FfAssignmentError "
          "carrying the partial assignment), element consistency (parameter mass = element mass), equality with the pristine baseline (history independence), equality "
-         "between copied and default files, refusal of partial molecules, and independence of atom numbering (equivalent strings).",
+         "between copied and default files, refusal of partial molecules, and independence of atom numbering (equivalent strings). "
+         "(2) Typing.tla specifies the assignment as a function of the match relation between rules and atoms (longest matching rule text, earliest among equals; total or the "
+         "assignment error with exactly the partial assignment); TLC checks its theorems (exactly one type per atom, numbering-free under every permutation, longest wins) over "
+         "EVERY match relation of a small universe (TypingMC), and validates every recorded call of get_type_assignments / MolGen.forcefield_types - each generated molecule in "
+         "its own and in random atom numberings (Chem.RenumberAtoms) - against the specification atom by atom (TypingTrace: outcome, typed atoms, type, mass of the element, "
+         "renumbered result = result renumbered).",
     design_ref="DESIGN.md 4/C20",
-    note="Trusted: TLC, RDKit atomic weights; OPLS masses rounded (tolerance 0.02 Da). Chemistry limited to what the bundled rules can type.",
-    technique="TLA+ history spec enumerated exhaustively by TLC; histories replayed into the implementation",
+    note="Trusted: TLC, RDKit (SMARTS matching = the match relation, atomic weights); OPLS masses rounded (tolerance 0.02 Da). The harness reads the bundled rule / parameter "
+         "files with its own reader. A different choice among matching rules is reported as a divergence, not as a violation (C20 does not prescribe it).",
+    technique="TLA+ history spec enumerated exhaustively by TLC and replayed into the implementation; TLA+ spec of the assignment function model-checked over all match relations and used by TLC to validate recorded typing calls in random atom numberings",
 )
 
 CHECKS["C16"] = dict(
@@ -152,13 +158,21 @@ CHECKS["C17"] = dict(
 )
 CHECKS["C18"] = dict(
     category="model_checking",
-    text="AtomGen.tla validates every molecule generated by AtomGraph(sag, rng).generate() against the SPECIFICATION's atom graph: residue blocks are whole tokens with "
-         "exactly their internal bonds, every link is a non-static edge of the spec graph with its order, residues form a tree; one TLC state per molecule. Molecules "
-         "come from the complete choice tree under the scripted generator (incl. a quantile grid for the Schulz-Zimm draw) and from recorded random streams; termination by "
-         "time bound, equal seeds -> equal molecules, sanitisation and connectivity from RDKit.",
+    text="(1) AtomGenMachine.tla is the step-level machine of AtomGraph.generate over an arbitrary stochastic atom graph (CONSTANT): static completion of a residue in depth-first "
+         "order, pick of the reacting atom, provisional termination of all others, one Schulz-Zimm draw per (Mw, Mn), comparison of the TERMINATED block mass, undo or keep, "
+         "transition to the next block - one action per call on the random generator. AtomGenMC model-checks it on the graph object the implementation built for each instance: "
+         "every option at every decision x a target grid; invariants C18State (whole residues, exact internal bonds, links along non-static edges with their order, residue tree), "
+         "ILaw, NoError, action properties GrowsOnly / OneDrawPerKey, liveness Termination. "
+         "(2) code -> spec: the implementation's complete choice tree (scripted generator, quantile grid for the draw) is validated node by node by AtomGenTrace (number of options, "
+         "probability vector, draw, and the generated graph atom by atom at every return). (3) spec -> code: the behaviours TLC generates from AtomGenMCH (exhaustive under VIEW, "
+         "simulation mode for targets of hundreds of units in the thorough tier) are replayed into AtomGraph.generate with scripted decisions and forced targets; the built graph "
+         "must be the machine's. (4) every molecule the code built in (2), (3) and under recorded random streams is validated by AtomGen.tla against the SPECIFICATION's atom graph "
+         "(whole tokens, internal bonds, links = non-static edges with their order, tree); equal scripts / seeds -> equal decisions and molecules; sanitisation and connectivity from RDKit.",
     design_ref="DESIGN.md 4/C18",
-    note="Final states only (no step-wise trace of the atom-graph generator). Molecules without a start node are outside the statement. Trusted: TLC, RDKit.",
-    technique="TLA+ spec of the admissible result (AtomGen over AtomGraph) checked by TLC on recorded generated molecules (trace validation of final states)",
+    note="A step where the code does not follow the machine (other probabilities, other graph) is recorded as a divergence in the evidence and is NOT a violation: C18 is judged on the "
+         "clauses of its statement (followed-state predicates and the molecules built). Molecules without a start node are outside the statement. Options the code only has because it "
+         "adds 1e-300 to every weight are not explored in (2) but are in (1) and (3). Trusted: TLC, RDKit.",
+    technique="TLA+ state machine of atom-graph generation model-checked by TLC (safety + liveness) per instance graph; trace-tree validation of the implementation's choice tree against it; TLC-generated behaviours replayed into the implementation; generated molecules validated against the spec's atom graph",
 )
 
 _LAW_NOTE = ("Weaker than the structural properties, and said so: the real-valued content (densities, CDFs, quantiles) enters as integer tables (scaled 1e8) computed by an independent numeric "
